@@ -41,7 +41,7 @@
  * to an empty slot answers -1 without calling into the library.  Guarded preconditions (answer -1): edits of a list key
  * inside its list instance, nodes inserted below themselves, siblings duplicated into their own sibling list, whole-tree
  * calls on an unlinked nested subtree, absolute lyd_new_path next to a nested node, LYD_PARSE_ORDERED, *_CANON values;
- * known-defective calls that only the witnesses make (flag argument): F61, F65, F72. */
+ * known-defective calls that only the witnesses make (flag argument): F112, F116, F123. */
 #define _GNU_SOURCE
 #include <ctype.h>
 #include <stdarg.h>
@@ -594,7 +594,7 @@ in_keyed_list(const struct lyd_node *n)
     return n && n->parent && n->parent->schema && (n->parent->schema->nodetype == LYS_LIST) && !(n->parent->schema->flags & LYS_KEYLESS);
 }
 
-/* sibling ring sane? (bounded walk; a node linked to itself is what F61 leaves behind) */
+/* sibling ring sane? (bounded walk; a node linked to itself is what F112 leaves behind) */
 static int
 ring_broken(const struct lyd_node *n)
 {
@@ -1245,10 +1245,10 @@ do_op(const struct op *o, int idx)
         if (in_subtree(n, dst)) return -1;
         if ((a == b) && !n->parent && !n->prev->next && n->next) return -1;
         if (is_placed_key(n)) return -1;
-        /* F61: lyd_insert_sibling() of the node that is the first sibling of the destination links the node to itself;
+        /* F112: lyd_insert_sibling() of the node that is the first sibling of the destination links the node to itself;
          * only the witness (arg 5 = 1) goes there */
         if (IS("is") && (lyd_first_sibling(dst) == n) && (A_i(o, 5) != 1)) return -1;
-        /* F72: a first top-level sibling takes its followers along (lyd_move_nodes); into a sibling list that has
+        /* F123: a first top-level sibling takes its followers along (lyd_move_nodes); into a sibling list that has
          * instances of the same list this ties the ring into a cycle or drops the first destination sibling;
          * only the witness (arg 5 = 2) goes there */
         whole = (!n->parent && !n->prev->next && n->next) ? 1 : 0;
@@ -1424,7 +1424,7 @@ do_op(const struct op *o, int idx)
             struct lyd_node_any *sa = (struct lyd_node_any *)src;
 
             if (!src || !src->schema || !(src->schema->nodetype & LYD_NODE_ANY) || (src == trg)) return -1;
-            /* an anydata node with a non-tree value cannot be printed (F65: the failing print leaks); witness only */
+            /* an anydata node with a non-tree value cannot be printed (F116: the failing print leaks); witness only */
             if ((trg->schema->nodetype == LYS_ANYDATA) && (sa->value_type != LYD_ANYDATA_DATATREE) && !A_i(o, 5)) return -1;
             rc = lyd_any_copy_value(trg, &sa->value, sa->value_type);
         } else {
